@@ -4,8 +4,10 @@ import (
 	"encoding/json"
 	"fmt"
 	"math/rand"
+	"runtime"
 	"sort"
 	"strings"
+	"sync"
 	"time"
 
 	"codeberg.org/TauCeti/mangle-go/ast"
@@ -69,7 +71,7 @@ func (c06) Cases(tier string) int {
 func (c06) Describe() core.Info {
 	return core.Info{
 		Level: "exploration",
-		Rule: "random histories (15-120 ops) of add/remove/contains/query/list/count/merge over a ~40-atom universe (same symbol with arities 0,1,2; all constant kinds; patterns with constants in non-first columns) on 11 store kinds x 2 universes (plain: pairwise distinct Atom.Hash; collide: contains hash-equal distinct atoms); oracle = Go map keyed by canonical encoding, layered for merged/teeing; multi-indexed stores additionally walked by the verif index-agreement hook at quiescent points. Non-trivial: history has a remove-then-query or a merge and reaches >= 4 distinct model states; distinct by hash of (kind, op sequence).",
+		Rule: "random histories (15-120 ops) of add/remove/contains/query/list/count/merge over a ~40-atom universe (same symbol with arities 0,1,2; all constant kinds; patterns with constants in non-first columns) on 11 store kinds x 2 universes (plain: pairwise distinct Atom.Hash; collide: contains hash-equal distinct atoms); oracle = Go map keyed by canonical encoding, layered for merged/teeing; multi-indexed stores additionally walked by the verif index-agreement hook at quiescent points; on the concurrent wrappers the history is followed by a contended phase: 4 goroutines add and remove the same <= 4 atoms at once and, at quiescence, (Adds that returned true) - (Removes that returned true) must equal the change in membership of each atom (exactly-once conservation, no search needed). Non-trivial: history has a remove-then-query or a merge and reaches >= 4 distinct model states; distinct by hash of (kind, op sequence).",
 		Assumptions: []string{"canon encoding is injective (unit-tested)", "ListPredicates may list stale empty predicates", "EstimateFactCount of merged/teeing may over-estimate (documented)"},
 	}
 }
@@ -464,9 +466,97 @@ func c06Exec(c c06Case, res *core.Result) *c06Fail {
 	if f := checkSources(len(c.Ops) - 1); f != nil {
 		return f
 	}
+	if strings.HasPrefix(c.Kind, "concurrent-") && c.Universe == "plain" && st.rm != nil {
+		if f := c06Contended(c, st, W, kc, res); f != nil {
+			return f
+		}
+	}
 	res.Ob("model_states", len(states))
 	if len(states) >= 4 {
 		res.NonTrivial = true
+	}
+	return nil
+}
+
+// c06Contended: after the sequential history, several goroutines add and remove the same few atoms of the
+// concurrent wrapper at the same time. Whatever the schedule, "add reports true exactly when the atom was
+// absent" implies a conservation law per atom: (adds that returned true) - (removes that returned true)
+// = membership afterwards - membership before. The law is checked at quiescence; it needs no search.
+func c06Contended(c c06Case, st c06Store, W canon.Set, kc string, res *core.Result) *c06Fail {
+	var atoms []ast.Atom
+	seen := map[string]bool{}
+	for _, op := range c.Ops {
+		if op.A == nil {
+			continue
+		}
+		a := op.A.Atom()
+		if k := canon.Atom(a); !seen[k] {
+			seen[k] = true
+			atoms = append(atoms, a)
+		}
+		if len(atoms) == 4 {
+			break
+		}
+	}
+	if len(atoms) == 0 {
+		return nil
+	}
+	before := make([]bool, len(atoms))
+	for i, a := range atoms {
+		before[i] = W.Has(a)
+	}
+	const G, rounds = 4, 12
+	type tally struct{ adds, removes []int }
+	tallies := make([]tally, G)
+	var wg sync.WaitGroup
+	startGate := make(chan struct{})
+	for g := 0; g < G; g++ {
+		tallies[g] = tally{make([]int, len(atoms)), make([]int, len(atoms))}
+		wg.Add(1)
+		go func(g int) {
+			defer wg.Done()
+			rr := rand.New(rand.NewSource(int64(len(c.Ops))*131 + int64(g)))
+			<-startGate
+			for k := 0; k < rounds; k++ {
+				for _, i := range rr.Perm(len(atoms)) {
+					if rr.Intn(3) == 0 {
+						if st.rm.Remove(atoms[i]) {
+							tallies[g].removes[i]++
+						}
+					} else if st.fs.Add(atoms[i]) {
+						tallies[g].adds[i]++
+					}
+					if rr.Intn(2) == 0 {
+						runtime.Gosched()
+					}
+				}
+			}
+		}(g)
+	}
+	close(startGate)
+	wg.Wait()
+	res.Ob("contended_phases", 1)
+	res.Ob("contended_operations", G*rounds*len(atoms))
+	for i, a := range atoms {
+		adds, removes := 0, 0
+		for g := 0; g < G; g++ {
+			adds += tallies[g].adds[i]
+			removes += tallies[g].removes[i]
+		}
+		after := st.fs.Contains(a)
+		b2i := map[bool]int{false: 0, true: 1}
+		if adds > 1 || removes > 0 {
+			res.Ob("contended_atoms_with_competing_successes", 1)
+		}
+		if adds-removes != b2i[after]-b2i[before[i]] {
+			return &c06Fail{len(c.Ops) - 1, kc + ":contended:add-remove-not-conserved", fmt.Sprintf("after the history, %d goroutines added and removed %v concurrently: Add returned true %d times and Remove returned true %d times, but the atom was %s before and is %s afterwards (schedule dependent: the replay may need repetition)", G, a, adds, removes, map[bool]string{true: "present", false: "absent"}[before[i]], map[bool]string{true: "present", false: "absent"}[after])}
+		}
+		// keep the model in step for anything that follows
+		if after {
+			W.Add(a)
+		} else {
+			delete(W, canon.Atom(a))
+		}
 	}
 	return nil
 }
